@@ -497,11 +497,11 @@ THOROUGH_EXTRA = {
     'C06': ['st_recv_pubrec_v5_reason_codes', 'st_send_pubrel_states_v311', 'st_send_publish_v311_never_dropped', 'st_recv_puback_v5_flow', 'st_recv_pubcomp_flow', 'st_notify_closed_any', 'st_recv_pubrec_v5_flow'],
     'C07': ['st_recv_publish_q2_v311', 'st_reuse_client_v311_clean_connect', 'st_recv_pubrel_flow', 'st_notify_closed_any'],
     'C08': ['st_recv_pubrec_v5_reason_codes', 'c20_step_u16_n3', 'st_recv_puback_v5_flow', 'st_recv_pubcomp_flow', 'st_send_publish_v311_never_dropped', 'st_recv_unsuback_v5', 'st_recv_suback_v311', 'st_recv_suback_v5',
-            'st_recv_unsuback_v311', 'st_send_publish_v5_flow', 'st_send_publish_v5_limit', 'st_recv_pubrec_v5_flow'],
+            'st_recv_unsuback_v311', 'st_send_publish_v5_limit', 'st_recv_pubrec_v5_flow'],
     'C09': ['c09_f2_s2_nonminimal', 'c09_f2_s5_partial_tail', 'c09_f2_s6_three_byte_len', 'st_recv_framing_error_v311', 'st_recv_framing_error_v5'],
     'C10': ['st_reuse_client_v311_clean_connect', 'st_recv_connect_v5_server'],
     'C11': ['c11_const_table'] + ['c11_cell_' + _c for _c in C11_DECIDED] + ['st_send_publish_v311_never_dropped', 'st_send_pubrel_states_v311'],
-    'C12': ['st_recv_pubrec_v5_reason_codes', 'st_recv_puback_v5_flow', 'st_recv_pubcomp_flow', 'st_recv_pubrec_v5_flow', 'st_send_publish_v5_flow'],
+    'C12': ['st_recv_pubrec_v5_reason_codes', 'st_recv_puback_v5_flow', 'st_recv_pubcomp_flow', 'st_recv_pubrec_v5_flow'],
     'C13': ['st_recv_connect_v5_server_tam'],
     'C14': ['st_send_publish_v5_limit'],
     'C15': ['st_send_pubrel_states_v311', 'st_send_pingreq_v311_client', 'st_send_disconnect_v5_server', 'st_timer_fired_v311_client', 'st_timer_fired_v5_client_pingresp', 'st_recv_connect_v5_server'],
@@ -529,6 +529,7 @@ for _p, _names in THOROUGH_EXTRA.items():
 # Written and compiled on every run, but not decided within the memory / time limits of this sandbox (measured);
 # they are *outside the claim* (DESIGN 10.5) and can be run with `bin/check DEV --only <name>`.
 EXPERIMENTAL = {
+    'st_send_publish_v5_flow': '> 28 GB after 30 min (class XL)',
     'st_send_publish_v5_manual_alias_rebind1': '> 28 GB after 17 min (class XL)',
     'st_recv_connack_v311_resume': 'time-out 50 min at 19 GB (class XL)',
     'st_erase_stored_publish_v5': '> 28 GB after 31 min (class XL)',
